@@ -16,7 +16,7 @@ warnings.filterwarnings('ignore')
 
 VERIF = os.path.dirname(os.path.dirname(os.path.abspath(__file__)))
 REPO = os.environ.get('BCT_REPO', '/repo')
-LEAN = os.path.join(VERIF, 'lean')
+LEAN = os.environ.get('BCT_LEAN', os.path.join(VERIF, 'lean'))
 sys.path.insert(0, REPO)
 import numpy as np  # noqa: E402
 
@@ -297,6 +297,11 @@ class Check:
         self.checker_cmds = []
         self._nontrivial = set()
         self.known = json.load(open(os.path.join(VERIF, 'known_findings.json')))
+        kd = os.path.join(VERIF, 'known_findings.d')
+        if os.path.isdir(kd):
+            for f in sorted(os.listdir(kd)):
+                if f.endswith('.json'):
+                    self.known.setdefault('open', []).extend(json.load(open(os.path.join(kd, f))).get('open', []))
         self.known_hit = {}
         self.rs = np.random.RandomState((self.seed * 7919 + int(hashlib.sha1(pid.encode()).hexdigest()[:6], 16)) % (2 ** 31))
 
